@@ -76,7 +76,10 @@ class EnumDef:
                 out.append("    #[cfg(all())]")
             elif c in ("off", "off_doc"):
                 out.append("    #[cfg(any())]")
-            out.append(f"    {n} = {d:#x},")
+            if n in getattr(self, "implicit", ()):
+                out.append(f"    {n},")
+            else:
+                out.append(f"    {n} = {d:#x},")
         out.append("}")
         return "\n".join(out)
 
@@ -90,6 +93,8 @@ class EnumDef:
         has_cfg = any(c is not None for (_, _, c) in self.variants)
         if not (1 <= self.bits <= 64):
             return False
+        if getattr(self, "implicit", ()):
+            return False  # every variant needs an explicit integer-literal discriminant
         if any(d >= n for (_, d, _) in self.variants):
             return False
         if has_cfg and self.exhaustive != "conditional":
